@@ -120,3 +120,25 @@ Fixpoint h_trace (s : hstate) (os : list V) (hs : list Z) : list V :=
   end.
 (* [ops; handles] -> per op [allocator before the op; [content of each handle]] *)
 Definition run_heap (arg : V) : V := ok (VL (h_trace h_init (vlist (vnth 0 arg)) (zs_of (vnth 1 arg)))).
+
+(* ---------- equality (C14): [ty; format; a; b] -> [eq a b; eq b a; reflb a] with close x y := the harness's
+   verdict is not available inside the model: np.allclose is abstract.  The harness only generates pairs whose
+   compared samples are identical or differ by a factor of two, for which every admissible [close] answers the
+   same: close := (bit equality, or +-0) ---------- *)
+From Model Require Export Equality.
+Definition close_exact (a b : Z) : bool := feq32 a b.
+Definition schema_of (ty format : Z) : option eqs :=
+  if ty =? 11 then Some q_em else if ty =? 9 then Some q_pd else if ty =? 7 then Some q_pc else
+  if ty =? 16 then Some q_ev else if ty =? 2 then Some (if format =? 1 then q_ca else q_ca_bts) else
+  if ty =? 4 then Some q_d2 else None.
+Definition run_eq (arg : V) : V :=
+  let ty := vint (vnth 0 arg) in
+  let format := vint (vnth 1 arg) in
+  let a := vnth 2 arg in
+  let b := vnth 3 arg in
+  match block_eq close_exact ty format a b, block_eq close_exact ty format b a with
+  | Some x, Some y =>
+      ok (VL [vbool x; vbool y;
+              match schema_of ty format with Some s => vbool (reflb s a) | None => VI 1 end])
+  | _, _ => fail ENotImpl
+  end.
